@@ -228,7 +228,7 @@ class World:
         world.restore_pristine()
         seams.install_all()
         self._wctx = warnings.catch_warnings(record=True)
-        self._wctx.__enter__()
+        self._wlist = self._wctx.__enter__()
         warnings.simplefilter("always")
 
     def finish(self):
@@ -288,14 +288,40 @@ class World:
                 for p, n in world.cache_entries(rec.op):
                     w = self.prov.get((oid, p, n), (None, "?", "?"))
                     direct_inexact = False
-                    if len(w) >= 6 and w[1] == "query" and n.split("(")[0] == w[3] and w[4] is not None and w[5] is not None:
-                        # the entry is the direct result of a query of the same name whose answer was just as inexact on a fresh copy
-                        direct_inexact = w[5] > 1e-4 and w[4] <= max(30 * w[5], 1e-2)
+                    if len(w) >= 6 and w[1] == "query" and w[4] is not None and w[5] is not None:
+                        # the entry was written (as result or side effect) by a query whose own answer was just as inexact on
+                        # its fresh twin: the library computes garbage for this operator with or without history
+                        direct_inexact = (w[5] > 1e-4 or w[5] != w[5]) and (w[4] <= max(30 * w[5], 1e-2) or w[4] == w[5] or (w[4] != w[4] and w[5] != w[5]))
                     rows.append({"step": i, "obj": oid, "path": p, "name": n, "writer": f"{w[1]}:{w[2]}", "direct_inexact": direct_inexact,
                                  "err": world.entry_error(rec.op, p, n, fresh)})
             self.entries_by_step[i] = rows
 
+    def _drain_warnings(self):
+        """Reach probes read from the library's own warnings (rare designed branches)."""
+        wl = getattr(self, "_wlist", None)
+        if not wl:
+            return
+        for w_ in wl:
+            msg = str(w_.message)
+            if "added jitter" in msg:
+                self.stat("reach_cholesky_jitter_retry")
+            elif "Using symeig method" in msg:
+                self.stat("reach_cholesky_to_symeig_fallback")
+            elif "NaNs encountered in preconditioner" in msg:
+                self.stat("reach_preconditioner_nan_fallback")
+            elif "CG terminated" in msg:
+                self.stat("reach_cg_not_converged")
+            elif "negative" in msg.lower() and "eigen" in msg.lower():
+                self.stat("reach_negative_eigenvalues_warning")
+        del wl[:]
+
     def apply(self, i, op):
+        try:
+            return self._apply(i, op)
+        finally:
+            self._drain_warnings()
+
+    def _apply(self, i, op):
         k = op["k"]
         if self.knockout or self.scen.get("measure_entries"):
             self._pre_step(i, op)
@@ -480,6 +506,12 @@ class World:
         fp = json.dumps([rec.cls, [f"{p}:{n}" for p, n in here], qsig, _settings_key()])
         import hashlib
 
+        if foreign:
+            self.stat("reach_query_meets_foreign_cache")
+        if any(n.startswith("@_q_cache") for _, n in here):
+            self.stat("reach_preconditioner_cache_present")
+        if any(self.prov[(oid, p, n)][1] == "derive" for p, n in here if (oid, p, n) in self.prov):
+            self.stat("reach_query_meets_transplanted_cache")
         fph = hashlib.blake2b(fp.encode(), digest_size=8).hexdigest()
         self.fingerprints.add(fph)
         if foreign or rec.faulted:
@@ -674,6 +706,11 @@ class World:
             return {"kind": kind, "at": at, "of": n, "attempts": fault.get("attempts", 1)}
         if kind == "linalg_err":
             fn = fault["fn"]
+            if fcounts.get(fn, 0) == 0:
+                # the requested kernel is not used by this query: fall on one that is (deterministic in the fresh counts)
+                cands = [k_ for k_ in sorted(fcounts) if fcounts[k_] > 0 and k_ != "cholesky_ex"]
+                if cands:
+                    fn = cands[min(len(cands) - 1, int(u * len(cands)))]
             n = fcounts[fn]
             at = max(1, math.ceil(u * 1.1 * max(n, 1)))
             seams.LINALG.armed = {"fn": fn, "at": at, "attempts": 1}
